@@ -103,7 +103,8 @@ class Check:
         """one TLC run: checks the design-level invariants on every state AND prints witness programs"""
         cfg = os.path.join(self.tmp, 'w_%s.cfg' % label)
         tlc.write_cfg(cfg, spec, consts, invariants=list(invariants) + [emit], view='View')
-        r = tlc.run_tlc(module, cfg, timeout=timeout, coverage=coverage)
+        import random
+        r = tlc.run_tlc(module, cfg, timeout=timeout, coverage=coverage, witness_limit=limit, rng=random.Random(self.seed))
         if r.violated:
             sys.stderr.write(r.out[-6000:])
             raise MachineryError('TLC run %s: the MODEL violates %s' % (label, r.violated))
@@ -111,9 +112,10 @@ class Check:
             sys.stderr.write(r.out[-6000:])
             raise MachineryError('witness generation %s failed: %s' % (label, r.errors[:3]))
         import random
-        ws, bad = parse_witnesses(r.out, limit=limit, rng=random.Random(self.seed))
+        ws, bad = parse_witnesses(r, limit=limit, rng=random.Random(self.seed))
+        total = r.witness_total
         self.tlc_runs.append({'label': label, 'module': module, 'constants': _jsonable(consts),
-                              'witnesses_emitted': parse_witnesses.total,
+                              'witnesses_emitted': total,
                               'invariants_checked': list(invariants), 'complete': r.complete,
                               'actions_never_taken': sorted(a for a, (d, g) in r.coverage.items() if g == 0),
                               'generated': r.generated, 'distinct': r.distinct, 'witness_programs': len(ws),
